@@ -481,7 +481,9 @@ def r_sortshape(f):
     n = 0
     # s1 (every entry point): a stable sort method never reaches an unstable std sort, through whatever helpers / siblings
     for b in f.fn_bodies:
-        if not (b.trait_provided and b.trait_head == "SortOps" and b.kind == "AssocFn" and b.name and b.name.startswith("sort_")):
+        # the provided methods, and every override of one in an impl (or inherent method that hides one: facts.py files those
+        # under the trait method's identity)
+        if not ((b.trait_provided or b.impl_trait) and b.trait_head == "SortOps" and b.kind == "AssocFn" and b.name and b.name.startswith("sort_")):
             continue
         n += 1
         reached = std_sorts(sort_reach(f, b).values())
